@@ -221,6 +221,50 @@ def check_tif(rep, ix):
     new = [x for x in common.calls_in(c) if _n(x.func) == 'BITFrameArray']
     add = [x for x in common.calls_in(c) if _n(x) == 'bit_frame_array.add_block(tif_block.payload)']
     rep.ob('R-C13-INTERLEAVE', f'{M}:create_bit_frame_array_from_file', 'the first data block of a pass is its header, later data blocks are frame data', len(new) == 1 and len(add) == 1 and _n(new[0].args[1]) == 'tif_block', node=c, module=bm)
+    check_passes(rep, ix)
+
+
+def check_passes(rep, ix, rule='R-C13-PASSES'):
+    """every log pass that is opened ends up in the result: from the statement that opens a frame array no normal path leaves the
+    function without appending it (or reaching the `is not None` completion after the loop), whatever marker ends the data"""
+    bm = ix.module(M)
+    c = ix.get_func(M, 'create_bit_frame_array_from_file')
+    site = f'{M}:create_bit_frame_array_from_file'
+    g = cfgmod.CFG(c)
+    opens = [s for s in g.stmts() if isinstance(s, ast.Assign) and isinstance(s.value, ast.Call) and _n(s.value.func) == 'BITFrameArray' and len(s.targets) == 1 and isinstance(s.targets[0], ast.Name)]
+    rep.ob(rule, site, 'the statement that opens a log pass is found', len(opens) == 1, found=str(len(opens)), node=c, module=bm)
+    for o in opens:
+        v = o.targets[0].id
+        appends = [s for s in g.stmts() if any(_n(x.func).endswith('.append') and [_n(a) for a in x.args] == [v] for x in cfgmod.calls_at(s))]
+        finals = [s for s in g.stmts() if isinstance(s, ast.If) and show(nf(s.test)) == common.nfs(f'{v} is not None') and not s.orelse
+                  and any(a in list(ast.walk(s)) for a in appends)]
+        leak = g.path_avoiding(o, g.EXIT, set(appends) | set(finals), skip_exc=True)
+        rep.ob(rule, site, f'an opened pass `{v}` always reaches the result list (appended at its end marker, or completed after the loop)', not leak,
+               found=f'{len(appends)} append(s), {len(finals)} completion(s) after the loop; a path from the opening to the return avoids them' if leak else f'{len(appends)} append(s)',
+               required='no return / fall-through between opening a pass and appending it', node=o, module=bm)
+        # the variable is cleared only after the pass has been appended
+        for s in g.stmts():
+            if isinstance(s, ast.Assign) and [_n(t) for t in s.targets] == [v] and isinstance(s.value, ast.Constant) and s.value.value is None and s is not c.body[0]:
+                dom = g.dominators()
+                first = [x for x in g.stmts() if x in dom.get(o, ())]
+                if s in first:
+                    continue        # the initialisation before the loop
+                blk = getattr(s, '_parent', None)
+                body = next((b for b in (getattr(blk, 'body', []), getattr(blk, 'orelse', [])) if any(x is s for x in b)), [])
+                k = next((i for i, x in enumerate(body) if x is s), 0)
+                ok = any(x in appends for x in body[:k])
+                rep.ob(rule, site, f'`{v}` is cleared only after the pass was appended', ok, node=s, module=bm)
+    # the marker kinds are distinguishable
+    t = ix.get_class(M, 'TifType')
+    vals = {}
+    for st in t.body:
+        if isinstance(st, ast.Assign) and len(st.targets) == 1 and isinstance(st.targets[0], ast.Name):
+            try:
+                vals[st.targets[0].id] = ix.fold(M, st.value)
+            except Exception:
+                vals[st.targets[0].id] = _n(st.value)
+    ok = {'DATA', 'END_LOG_PASS', 'END_FILE'} <= set(vals) and len({repr(vals[k]) for k in ('DATA', 'END_LOG_PASS', 'END_FILE')}) == 3
+    rep.ob(rule, f'{M}:TifType', 'data, end of pass and end of file are three different enumeration values (equal values would be aliases)', ok, found=str(vals), node=t, module=bm)
 
 
 def run(rep, ix, tier):
@@ -234,3 +278,4 @@ def run(rep, ix, tier):
     rep.floor('R-C13-X', 8)
     rep.floor('R-C13-HEAD', 9)
     rep.floor('R-TIF', 6)
+    rep.floor('R-C13-PASSES', 4)
